@@ -67,6 +67,18 @@ def gen(repo, out, n, seed):
         for i in code_lines(text):
             l = lines[i]
             code = l.split("//")[0]
+            # second operator set: statement deletion, range ends, iteration order, saturating/wrapping arithmetic
+            st = code.strip()
+            if re.match(r"^(self\.)?[A-Za-z_][\w\.\[\]\*&]*\s*(=|\+=|-=|\*=|/=)\s*[^=].*;$", st) and not st.startswith(("let ", "return")):
+                allm.append(dict(file=f, line=i + 1, before=l, after=l.replace(st, "/* deleted */"), op="delete-assignment"))
+            if re.match(r"^[a-z_][\w\.]*\.(push|clear|sort_by|sort|extend|insert|remove|retain|reserve|truncate|swap|set|inc|receive|receive_from|update|add)\(.*\);$", st):
+                allm.append(dict(file=f, line=i + 1, before=l, after=l.replace(st, "/* deleted */"), op="delete-call"))
+            for pat2, rep2 in ((r"\.\.=", ".."), (r"(?<!\.)\.\.(?![.=])(?=\s*[\w(])", "..="), (r"\.iter\(\)", ".iter().rev()"),
+                               (r"saturating_sub", "wrapping_sub"), (r"saturating_add", "wrapping_add"), (r"\.min\(", ".max("), (r"\.max\(", ".min("),
+                               (r"as f64", "as f32 as f64"), (r"\.take\(", ".skip(")):
+                for m2 in re.finditer(pat2, code):
+                    new2 = code[: m2.start()] + rep2 + code[m2.end():] + l[len(code):]
+                    allm.append(dict(file=f, line=i + 1, before=l, after=new2, op=f"{pat2} -> {rep2}"))
             for pat, rep in OPS:
                 for m in re.finditer(pat, code):
                     # skip generics / lifetimes / arrows / references that look like operators
